@@ -636,6 +636,15 @@ func symItoa(fr *frame, t *Term) value {
 
 func symAtoi(fr *frame, s *Term, is64 bool) value {
 	m := fr.i.m
+	// a decimal rendering produced by symItoa (str.from_int only for a non-negative argument) is parsed back
+	// structurally: decimal rendering is injective, and the solvers do not decide the round trip
+	if s.Op == "str.from_int" && len(s.Args) == 1 {
+		return tuple{value(s.Args[0]), iface{}}
+	}
+	if s.Op == "str.++" && len(s.Args) == 2 && s.Args[0].IsConst() && s.Args[0].S == "-" &&
+		s.Args[1].Op == "str.from_int" && len(s.Args[1].Args) == 1 {
+		return tuple{value(mkNeg(s.Args[1].Args[0])), iface{}}
+	}
 	digits := mkInRe(s, `(re.+ (re.range "0" "9"))`)
 	mk := func(t *Term) value {
 		if is64 {
